@@ -10,6 +10,7 @@ from common import Ctx
 PROP = "C02"
 LEAN_MODULE = "TsProofs.Properties.C02"
 THEOREMS = [
+    "Ts.Commit.C02_crash_atomic_json",
     "Ts.Commit.C02_commit_last",
     "Ts.Commit.C02_crash_atomic",
     "Ts.Commit.C02_return_implies_committed",
